@@ -96,6 +96,15 @@ pub fn gen_client_history(property: &str, seed: u64) -> ClientHistory {
                         _ => COp::AskTower { t, c: Some(r.below(next_c.max(1) as u64) as u32) },
                     });
                 }
+                if r.chance(1, 8) {
+                    // the user gives up on the tower while its retrier idles; the auto-retry delay then runs out
+                    ops.push(COp::Advance { secs: cfg.max_retry_time + 2 * cfg.max_interval + 5 });
+                    ops.push(COp::AbandonTower { t });
+                    ops.push(COp::Advance { secs: cfg.auto_retry_delay + 5 });
+                    if r.chance(1, 2) {
+                        ops.push(COp::Register { t });
+                    }
+                }
                 if r.chance(1, 3) {
                     ops.push(COp::RetryTower { t });
                 }
